@@ -18,6 +18,9 @@ Round 5 (hunt): collapse_cost's edge regions end at samples (repair d6e50c0);
 impose_at / impose_as references re-derived (dtype widening, in-range pairs;
 repairs 94e41ab, 77f135c); measure collapses reach impose_measure as dicts
 whatever the mask format (repair 83961c8).
+Round 6: detectors, mask filters and Collapse* conditions keep no state between
+calls (iterator aliases included); impose_at / impose_as use their arguments as
+paired by the caller; connected keeps the key of an absorbed group.
 NOT decided: detectors' numeric results, that the solve terminates, measure
 collapses' numeric effects (C18).
 """
@@ -586,3 +589,65 @@ def measure_collapses_reach_the_transform_as_dicts(ctx):
         ctx.check(conv or handles, '__collapse_constraints#%s-format' % what, 'every accepted collapse format reaches impose_measure as a dict',
                   '__collapse_constraints hands the %s collapse to impose_measure as reported: a collapse in set-of-tuples or where format (the format of the mask the user gave) has no .items(), '
                   'so the first evaluation after the collapse raises AttributeError and the solve never terminates normally' % what, f, enclosing_stmt(c))
+
+
+@rule('C11.p', min_instances=10)
+def detectors_and_collapse_conditions_keep_no_state_between_calls(ctx):
+    """a collapse detector answers from the recorded history and its mask alone, and a Collapse* condition object may be handed to several solvers: no function the mask filters / Collapse* factories return reads a one-shot iterator built outside it (zip(*mask) hoisted out of the filter is exhausted by the first membership test: masked pairs are then reported - and applied - a second time), mutates an object of the factory's scope (a cached "last result" hands one solver's collapse to the next) or declares anything nonlocal"""
+    n = 0
+    todo = []
+    mc = ctx.model.modules['mystic.collapse']
+    for q, fi in sorted(mc.funcs.items()):
+        if fi.parent is None:
+            todo.append(fi)
+    mt = ctx.model.modules['mystic.termination']
+    for q, fi in sorted(mt.funcs.items()):
+        if fi.parent is None and fi.name.startswith('Collapse'):
+            todo.append(fi)
+    for outer in todo:
+        inners = [x for x in ast.walk(outer.node) if isinstance(x, (ast.FunctionDef, ast.Lambda)) and x is not outer.node]
+        ctx.touch(outer)
+        found = []
+        for inner in inners:
+            found += state_between_calls(outer.node, inner)
+        n += 1
+        seen = set()
+        for kind, nm, node in found:
+            if (kind, nm) in seen:
+                continue
+            seen.add((kind, nm))
+            what = {'iterator': 'reads the one-shot iterator `%s` built once outside it: the first use exhausts it, every later membership test sees nothing' % nm,
+                    'mutated': 'mutates `%s`, which lives in the enclosing scope and survives the call' % nm,
+                    'nonlocal': 'declares `%s` nonlocal/global' % nm}[kind]
+            ctx.bad('%s#per-call-state[%s]' % (outer.qualname, nm), 'a function returned by %s %s - the answer no longer depends on the recorded history and the mask alone' % (outer.qualname, what),
+                    outer, node if hasattr(node, 'lineno') else outer.node)
+        if not found:
+            ctx.ok('%s#stateless' % outer.qualname, '%d nested functions keep no state between calls' % len(inners), outer, outer.node)
+    ctx.need(n >= 10, 'expected >= 10 detector / condition factories, found %d' % n)
+
+
+@rule('C11.q', min_instances=2)
+def imposed_indices_and_targets_are_paired_as_given(ctx):
+    """__collapse_constraints hands impose_at the collapsed parameters and, for a list of targets, one target per parameter IN THE SAME ORDER (built by iterating the very set it passes); impose_as gets the pairs and the offset. The factories therefore use their arguments as given: no parameter the inner function reads is re-bound in the factory body (sorted(index) re-pairs indices and targets whenever the set does not iterate in sorted order - parameters are then pinned to each other's targets); the only re-binding allowed is a None default behind an `is None` test"""
+    n = 0
+    for anchor in ('mystic.constraints:impose_at', 'mystic.constraints:impose_as'):
+        fac = ctx.func(anchor)
+        params = set(fac.args())
+        inner_reads = set(x.id for d in ast.walk(fac.node) if isinstance(d, (ast.FunctionDef, ast.Lambda)) and d is not fac.node
+                          for x in ast.walk(d) if isinstance(x, ast.Name) and isinstance(x.ctx, ast.Load))
+        for p in sorted(params & inner_reads):
+            n += 1
+            rebinds = [st for st in walk_no_nested(fac.node) if isinstance(st, (ast.Assign, ast.AugAssign)) and p in assigned_names(st)]
+            bad = None
+            for st in rebinds:
+                gs = guards_of(st)
+                none_guard = any(tr and isinstance(t_, ast.Compare) and len(t_.ops) == 1 and isinstance(t_.ops[0], ast.Is) and isinstance(t_.left, ast.Name) and t_.left.id == p
+                                 and isinstance(t_.comparators[0], ast.Constant) and t_.comparators[0].value is None for t_, tr, _ in gs)
+                const_default = isinstance(st, ast.Assign) and isinstance(st.value, (ast.Constant, ast.Tuple, ast.List, ast.Dict)) and not any(isinstance(x, ast.Name) for x in ast.walk(st.value))
+                if not (none_guard and const_default):
+                    bad = st
+                    break
+            ctx.check(bad is None, '%s#%s' % (fac.qualname, p), 'the inner function uses %s as given' % p,
+                      '%s re-binds its argument %s (%s) before the inner function uses it: indices and targets / pairs are no longer the ones the caller paired up '
+                      '(a set of collapsed parameters sorted here is matched with targets listed in the set\'s own order)' % (fac.qualname, p, norm_stmt(bad)[:70] if bad else ''), fac, bad or fac.node)
+    ctx.need(n >= 2, 'expected >= 2 factory parameters read by the inner functions of impose_at / impose_as, found %d' % n)
